@@ -495,6 +495,7 @@ def check_min_exp(ctx, purges, list_adts):
                 n += 1
                 line = span_line(m, fn.line)
                 good = False
+                why_bad = None
                 for st in b.stores:
                     root = strip(st.root)
                     if not (root.kind == 'param' and root.args[0] == 1 and len(st.fields()) == 1 and st.fields()[0] in caches):
@@ -504,11 +505,25 @@ def check_min_exp(ctx, purges, list_adts):
                         has_old = any(L.cache_read(prog, fn, a) is not None for a in v.args)
                         has_new = any(L.expiration_call(prog, a) is not None for a in v.args)
                         if has_old and has_new and b.cfg.dominates(st.point[0], m.point[0]):
-                            good = True
+                            # nothing may overwrite the cache between the lowering and the insertion: a purge in between
+                            # recomputes it from a buffer that does not yet contain the new entry
+                            clobber = None
+                            for p2 in b.calls:
+                                t2 = prog.resolve(p2)
+                                if t2 is not None and t2.path in purges and st.point < p2.point < m.point and p2.point[0] in b.cfg.reachable_from(st.point[0]):
+                                    clobber = p2
+                            for st2 in b.stores:
+                                r2 = strip(st2.root)
+                                if st2 is not st and r2.kind == 'param' and r2.args[0] == 1 and st2.fields() == st.fields() and st.point < st2.point < m.point:
+                                    clobber = st2
+                            if clobber is None:
+                                good = True
+                            else:
+                                why_bad = 'the cached minimum is lowered, but then recomputed (purge / overwrite) before the entry is in the buffer'
                 if good:
                     ctx.add(RULE, fn, 'min_exp-on-insert', 'ok', 'cached minimum is lowered to the new key\'s expiration before the entry is inserted', LIST_PROPS, line)
                 else:
-                    ctx.add(RULE, fn, 'min_exp-on-insert', 'violation', 'an entry is inserted without first lowering the cached minimum expiration to its expiration (the purge may then be skipped while it is expired)', LIST_PROPS, line)
+                    ctx.add(RULE, fn, 'min_exp-on-insert', 'violation', (why_bad or 'an entry is inserted without first lowering the cached minimum expiration to its expiration') + ' (a later purge may then be skipped while the entry is expired)', LIST_PROPS, line)
         # (3) who writes the cache
         for st in b.stores:
             root = strip(st.root)
